@@ -19,6 +19,7 @@ BS = 'one probe world; strings / lists of <= 2 bytes, list<record> of <= 1 eleme
 CALLBACKS = [
     Harness('c08_import_callbacks_flat_string', 'import.callbacks_flat_string', GS + 'greet(string) -> string (flat parameters)', bounded=BS),
     Harness('c08_import_callbacks_indirect_params', 'import.callbacks_indirect_params', GS + 'store(string, list<u8>, u32) -> list<u8> (parameters in the block)', bounded=BS),
+    Harness('c08_import_callbacks_result_slot_aligned_after_parameter_record', 'import.callbacks_result_slot_aligned', GS + 'wide(u32 x5) -> u64 and narrow(u8 x5) -> u32: results_offset / abi_layout when the result is more strictly aligned than the parameter record', bounded='one probe world; all parameter and result values'),
     Harness('c08_import_callbacks_list_of_records_empty', 'import.callbacks_list_of_records_empty', GS + 'many(list<record { u64, string }>) -> u32, empty list', bounded=BS),
     Harness('c08_import_callbacks_list_of_records_one', 'import.callbacks_list_of_records_one', GS + 'many(list<record { u64, string }>) -> u32, one element', bounded=BS),
 ]
